@@ -124,6 +124,32 @@ def disjuncts(test):
     return [test]
 
 
+def dnf(test, pol=True, limit=64):
+    """Disjunctive normal form of a boolean expression: a list of frozensets
+    of (atom text without blanks, polarity).  None when it would exceed
+    `limit` disjuncts.  `not`, `and`, `or` are interpreted; everything else
+    is an atom (truthiness)."""
+    if isinstance(test, ast.UnaryOp) and isinstance(test.op, ast.Not):
+        return dnf(test.operand, not pol, limit)
+    if isinstance(test, ast.BoolOp):
+        is_and = isinstance(test.op, ast.And) == pol
+        parts = [dnf(v, pol, limit) for v in test.values]
+        if any(p is None for p in parts):
+            return None
+        if not is_and:
+            out = [d for p in parts for d in p]
+        else:
+            out = [frozenset()]
+            for p in parts:
+                out = [a | b for a in out for b in p]
+                if len(out) > limit:
+                    return None
+        # drop contradictory disjuncts
+        out = [d for d in out if not any((t, not q) in d for t, q in d)]
+        return out if len(out) <= limit else None
+    return [frozenset([(text(test).replace(" ", ""), pol)])]
+
+
 def calls(func_or_nodes, name=None, attr=None):
     """Call nodes in a function's own body, filtered by full dotted name or
     by attribute (method) name."""
